@@ -264,8 +264,36 @@ def sink_dropped_senders():
     return runs
 
 
+def sink_real_backpressure():
+    """write back-pressure raised by the transport itself (the peer stops reading, a large publish fills the write
+    buffer) while the dispatched service is busy or idle, senders parked on it; the peer reads again, the handlers
+    finish: the sink must be told, every parked sender resumes and completes"""
+    runs = []
+    for ver in (3, 5):
+        for role in ("server", "client"):
+            for busy in ("before", "during", "never"):
+                for limit in (dict(max_receive=1), dict(max_receive=2, max_receive_size=8)):
+                    cfg = dict(dict(role=role, ver=ver, gate_pub=1, gate_proto=0, max_qos=2, max_send=4, wr_high=32, wr_low=8), **limit)
+                    hs = {"rm": 4} if ver == 5 else None
+                    inp = {"c": "in", "p": {"t": "publish", "q": 1, "id": 5, "topic": "t", "plen": 1}}
+                    cmds = [handshake(role, ver, connack=hs, connect=hs)]
+                    if busy == "before":
+                        cmds.append(inp)
+                    cmds += [{"c": "cap", "n": 0}, {"c": "send", "s": 1, "k": "q0", "plen": 200},
+                             {"c": "send", "s": 2, "k": "q1", "id": 0}, {"c": "poll", "s": 2},
+                             {"c": "send", "s": 3, "k": "ready", "id": 0}, {"c": "poll", "s": 3}]
+                    if busy == "during":
+                        cmds.append(inp)
+                    cmds += [{"c": "cap"}]
+                    if busy != "never":
+                        cmds.append({"c": "complete", "j": 0, "o": "ok"})
+                    cmds += [{"c": "poll", "s": 2}, {"c": "poll", "s": 3}, {"c": "ack", "n": 2}, {"c": "settle"}]
+                    runs.append(dict(cfg=cfg, cmds=cmds, src="real_backpressure"))
+    return runs
+
+
 def sink_random(tier, rnd):
-    runs = sink_local_failures() + sink_negative_acks() + sink_dropped_senders()
+    runs = sink_local_failures() + sink_negative_acks() + sink_dropped_senders() + sink_real_backpressure()
     for _ in range(300 if tier == "quick" else 4000):
         ver = rnd.choice([3, 5])
         role = rnd.choice(["server", "client"])
